@@ -24,7 +24,7 @@ Judge(c, D) ==
      /\ \A p \in bad : PrintT(<<"FAIL", c.scn, p, res[p]>>)
      /\ (c.hasexp /\ Proj(c.exp) # Proj(c.h)) => PrintT(<<"DRIFT", c.scn>>)
 
-HitKeys == {"multiSubmitter", "multiRound", "beyondQueue", "overlapped", "nonPositive"}
+HitKeys == {"multiSubmitter", "multiRound", "beyondQueue", "overlapped", "nonPositive", "queueFull", "paced"}
 Init == /\ i = 1
         /\ stats = [scenarios |-> 0, events |-> 0, hits |-> [k \in HitKeys |-> 0]]
 Next ==
